@@ -301,6 +301,10 @@ def get_max_advance(world: World, sim: SimRunner, until: int) -> int:
     for anc_sim, distance in sim.triggering_ancestors.items():
         if anc_sim.next_steps:
             ancs_next_steps.append((anc_sim.next_steps[0] + distance).time)
+        if anc_sim is not sim and anc_sim.current_step is not None:
+            # The ancestor is in the middle of a step whose output may
+            # still trigger us.
+            ancs_next_steps.append((anc_sim.current_step + distance).time)
 
     own_next_step = [sim.next_steps[0].time] if sim.next_steps else []
 
@@ -471,6 +475,13 @@ def advance_progress(sim: SimRunner, world: World):
         for pre_sim, distance in sim.triggering_ancestors.items()
         if pre_sim.next_steps
     ]
+    # An ancestor that is in the middle of a step (its outputs have not
+    # been retrieved yet) may still trigger us at its current step.
+    pre_sim_induced_progress.extend(
+        pre_sim.current_step + distance
+        for pre_sim, distance in sim.triggering_ancestors.items()
+        if pre_sim.current_step is not None
+    )
 
     next_step_progress: List[TieredTime] = [sim.next_steps[0]] if sim.next_steps else []
     current_step_prog = [sim.current_step] if sim.current_step else []
